@@ -20,9 +20,10 @@ import common
 OBJ_PKG = "magpylib._src.obj_classes"
 
 
-def run_node(modname, node, params, name=None, summaries=None, root=None):
+def run_node(modname, node, params, name=None, summaries=None, root=None, scalar_attrs=None):
     arepo = ARepo(root or common.REPO)
     dom = OriginDomain()
+    dom.scalar_attrs = set(scalar_attrs or ())
     dom.repo_summaries = summaries or {}
     it = Interp(arepo, dom)
     it.tolerant = True
@@ -337,32 +338,40 @@ def pose_mutations(repo, res, rule="M1"):
 # ------------------------------------------------------------------------------------------------ M2 (display)
 def display_mutations(repo, res, rule="D2c"):
     n = 0
-    for modname in ("magpylib._src.display.traces_base", "magpylib._src.display.traces_core"):
+    # attributes whose setter validates a *scalar* (check_format_input_scalar): numbers are immutable, `x = obj.diameter; x *= 1.5` rebinds
+    scalar_attrs = set()
+    for c in repo.cls_by_key.values():
+        for name, fn_ in c.setters.items():
+            if any(isinstance(x, ast.Call) and getattr(x.func, "id", "") == "check_format_input_scalar" for x in ast.walk(fn_)):
+                scalar_attrs |= {name, "_" + name}
+    OBJ_PARAMS = ("obj", "input_obj", "sensor", "source", "src", "magnet", "subobj", "parent_obj")
+    for modname in sorted(k for k in repo.mods if k.startswith("magpylib._src.display.")):
         m = repo.mods.get(modname)
-        if m is None:
-            raise AnalysisError(f"anchor module vanished: {modname}")
+        core = modname.endswith(("traces_base", "traces_core"))
         for fname, fn in m.funcs.items():
-            if not fname.startswith("make_"):
-                continue
             params = [a.arg for a in fn.args.posonlyargs + fn.args.args + fn.args.kwonlyargs]
+            # the model builders, and every display function that is handed a magpylib object
+            if not ((core and fname.startswith("make_")) or any(p in OBJ_PARAMS for p in params)):
+                continue
             bind = {}
             for p in params:
-                bind[p] = O({"A:obj"}) if p == "obj" else O({"P:" + p})
+                bind[p] = O({"A:obj"}) if p in OBJ_PARAMS else O({"P:" + p})
             a = fn.args
             ndef = len(a.defaults)
             pos = [x.arg for x in a.posonlyargs + a.args]
             required = set(pos[: len(pos) - ndef]) | {x.arg for x, d in zip(a.kwonlyargs, a.kw_defaults) if d is None}
-            bind = {k: v for k, v in bind.items() if k in required or k == "obj"}
+            bind = {k: v for k, v in bind.items() if k in required or k in OBJ_PARAMS}
             try:
-                out, dom, it = run_node(modname, fn, bind, name=fname)
+                out, dom, it = run_node(modname, fn, bind, name=fname, scalar_attrs=scalar_attrs)
             except Exception as e:  # noqa
                 res.notes.append(f"{rule} skipped {fname}: {type(e).__name__}: {e}")
                 continue
             n += 1
             res.evaluations += 1
             bad = [x for x in dom.mutations if x[0].startswith("A:obj") or x[0].startswith("P:")]
-            # writes to the (temporary) style are judged by D2
-            bad = [x for x in bad if ".style" not in x[0] and "style" not in x[4].split("=")[0]]
+            # writes to the (temporary) style are judged by D2: a sink one of whose origins is (part of) a style is a style write
+            style_sinks = {(x[2], x[4]) for x in dom.mutations if ".style" in x[0] or "style" in x[0].split(":", 1)[1].split(".")[0]}
+            bad = [x for x in bad if (x[2], x[4]) not in style_sinks and ".style" not in x[0] and "style" not in x[4].split("=")[0]]
             # re-binding an attribute (obj._faces = ...) is a state write judged by D1/D2; this rule is about in-place array writes
             bad = [x for x in bad if not x[3].startswith("attribute store")]
             res.ob(f"{rule}:{fname}", not bad, {"rule": rule, "function": fname, "in_place_sinks_on_object_or_argument_arrays": [b[4] for b in bad]},
@@ -399,6 +408,9 @@ def c20_g4(repo, res, rule="G4"):
     ]
     for modname, qual, setter, params, check_return in items:
         node = find_ast(modname, qual, setter)
+        have = [a.arg for a in node.args.posonlyargs + node.args.args]
+        if have and have[0] == "self" and "self" not in params:
+            params = dict(params, self=O({"A:self"}))          # a static helper turned into a method
         out, dom, it = run_node(modname, node, params, name=qual)
         res.evaluations += 1
         own = ("P:", "PD:", "N:")
